@@ -38,6 +38,7 @@ class LamTensor:
         self.inverse = None          # for index tensors declared to be permutations
         self.facts = []              # callables k -> z3 Bool, instantiated on element reads
         self.requires_grad = False
+        self.version = 0             # bumped by every in-place write (see _view_fn)
 
     @property
     def ndim(self):
@@ -65,6 +66,18 @@ class LamTensor:
 
 
 # -- constructors -------------------------------------------------------------
+def _view_fn(t):
+    """element function of a view of t taken now: valid only while t is not written in place"""
+    f, ver = t.fn, t.version
+
+    def vf(*i):
+        if t.version != ver:
+            raise Unsupported("read of a view (slice / .T / unbind) taken before an in-place write to its "
+                              "base tensor: aliasing through views is not modelled")
+        return f(*i)
+    return vf
+
+
 def const_tensor(shape, value, dtype="real"):
     return LamTensor(shape, lambda *i: value, dtype)
 
@@ -203,7 +216,11 @@ def getitem(t: LamTensor, idx, ctx=None):
             out_shape.append(ln)
         elif isinstance(i, LamTensor):
             if i.dtype == "bool":
-                raise Unsupported("boolean-mask read (data-dependent shape)")
+                if MASK_READ_HOOK is None or i.ndim != 1:
+                    raise Unsupported("boolean-mask read (data-dependent shape)")
+                # additive: contracts may install a model of 1-d mask reads (pyvc/maskidx.py):
+                # the mask becomes the int tensor enumerating its True positions in order
+                i = MASK_READ_HOOK(i, size, ctx)
             if gather_shape is not None:
                 raise Unsupported("more than one index tensor")
             gather_shape = i.shape
@@ -216,7 +233,9 @@ def getitem(t: LamTensor, idx, ctx=None):
         plan.append(("slice", 0))
         out_shape.append(t.shape[d])
 
-    src_fn = t.fn
+    # basic indexing gives a VIEW in torch; here it is a snapshot.  Reading the snapshot after the
+    # base has been written in place would silently differ from torch, so it is refused instead.
+    src_fn = _view_fn(t) if gather_shape is None else t.fn
 
     def fn(*o):
         o = list(o)
@@ -235,7 +254,15 @@ def getitem(t: LamTensor, idx, ctx=None):
         r = LamTensor((), lambda: fn(), t.dtype)
     else:
         r = LamTensor(tuple(out_shape), fn, t.dtype)
+    if (t.ndim == 1 and t.inverse is not None and len(plan) == 1 and plan[0][0] == "gather"
+            and plan[0][1].ndim == 1 and plan[0][1].inverse is not None):
+        # additive: p[o] of two declared permutations carries the witness o^-1[p^-1[.]]
+        pinv, oinv = t.inverse, plan[0][1].inverse
+        r.inverse = LamTensor(r.shape, lambda k: oinv.fn(pinv.fn(k)), t.dtype)
     return r
+
+
+MASK_READ_HOOK = None        # set by pyvc.maskidx.install(); None = mask reads are unsupported
 
 
 def value_at(v, oidx, out_shape):
@@ -257,6 +284,14 @@ def value_at(v, oidx, out_shape):
 
 def setitem(t: LamTensor, idx, value, ctx=None):
     """In-place t[idx] = value (rebinding t.fn)."""
+    t.version += 1
+    # right-hand side and index tensors are read NOW (later writes to them must not leak in)
+    if isinstance(value, LamTensor):
+        value = value.copy()
+    if isinstance(idx, tuple):
+        idx = tuple(i.copy() if isinstance(i, LamTensor) else i for i in idx)
+    elif isinstance(idx, LamTensor):
+        idx = idx.copy()
     if not isinstance(idx, tuple):
         idx = (idx,)
     old = t.fn
@@ -386,25 +421,31 @@ def _bidx(idx, shp_padded, n_out):
 
 def elementwise(f, a, b, ctx=None, dtype=None):
     """binary element-wise op with broadcasting; a or b may be python/z3 scalars."""
+    # results are new tensors (copies): operands' element functions are captured NOW, so a later
+    # in-place write to an operand does not change the result
     if not isinstance(a, LamTensor):
-        return LamTensor(b.shape, lambda *i: f(a, b.fn(*i)), dtype or b.dtype)
+        bf0 = b.fn
+        return LamTensor(b.shape, lambda *i: f(a, bf0(*i)), dtype or b.dtype)
     if not isinstance(b, LamTensor):
-        return LamTensor(a.shape, lambda *i: f(a.fn(*i), b), dtype or a.dtype)
+        af0 = a.fn
+        return LamTensor(a.shape, lambda *i: f(af0(*i), b), dtype or a.dtype)
     shape, a2, b2 = broadcast_shapes(a.shape, b.shape, ctx)
     na, nb = len(a.shape), len(b.shape)
     n = len(shape)
+    af, bf = a.fn, b.fn
 
     def fn(*i):
         ia = _bidx(i, a2, n)[n - na:]
         ib = _bidx(i, b2, n)[n - nb:]
-        return f(a.fn(*ia), b.fn(*ib))
+        return f(af(*ia), bf(*ib))
     dt = dtype or ("complex" if "complex" in (a.dtype, b.dtype) else
                    ("real" if "real" in (a.dtype, b.dtype) else a.dtype))
     return LamTensor(shape, fn, dt)
 
 
 def unary(f, a, dtype=None):
-    return LamTensor(a.shape, lambda *i: f(a.fn(*i)), dtype or a.dtype)
+    af = a.fn
+    return LamTensor(a.shape, lambda *i: f(af(*i)), dtype or a.dtype)
 
 
 def where(c, a, b, ctx=None):
@@ -416,11 +457,13 @@ def where(c, a, b, ctx=None):
         shape, _, _ = broadcast_shapes(shape, s, ctx)
     n = len(shape)
 
+    fns = {id(x): x.fn for x in (c, a, b) if isinstance(x, LamTensor)}
+
     def el(x, i):
         if not isinstance(x, LamTensor):
             return x
         pad = (1,) * (n - x.ndim) + x.shape
-        return x.fn(*_bidx(i, pad, n)[n - x.ndim:])
+        return fns[id(x)](*_bidx(i, pad, n)[n - x.ndim:])
     dt = a.dtype if isinstance(a, LamTensor) else (b.dtype if isinstance(b, LamTensor) else "real")
     return LamTensor(shape, lambda *i: pick(el(c, i), el(a, i), el(b, i)), dt)
 
@@ -434,15 +477,16 @@ def stack(ts, dim, ctx=None):
     if dim < 0:
         dim += nd
     shape = base[:dim] + (len(ts),) + base[dim:]
+    fns = [t.fn for t in ts]
 
     def fn(*i):
         k = i[dim]
         rest = list(i[:dim]) + list(i[dim + 1:])
         if isinstance(k, int):
-            return ts[k].fn(*rest)
-        out = ts[-1].fn(*rest)
-        for j in range(len(ts) - 2, -1, -1):
-            out = ops.ite(to_z3(k) == j, ts[j].fn(*rest), out)
+            return fns[k](*rest)
+        out = fns[-1](*rest)
+        for j in range(len(fns) - 2, -1, -1):
+            out = ops.ite(to_z3(k) == j, fns[j](*rest), out)
         return out
     return LamTensor(shape, fn, ts[0].dtype)
 
@@ -454,9 +498,10 @@ def unbind(t, dim):
     if not isinstance(n, int):
         raise Unsupported("unbind along a symbolic dimension")
     out = []
+    tf = _view_fn(t)
     for k in range(n):
         out.append(LamTensor(t.shape[:dim] + t.shape[dim + 1:],
-                             (lambda k: lambda *i: t.fn(*(list(i[:dim]) + [k] + list(i[dim:]))))(k),
+                             (lambda k: lambda *i: tf(*(list(i[:dim]) + [k] + list(i[dim:]))))(k),
                              t.dtype))
     return tuple(out)
 
@@ -464,7 +509,8 @@ def unbind(t, dim):
 def transpose(t):
     if t.ndim != 2:
         raise Unsupported(".T on a tensor that is not 2-d")
-    return LamTensor((t.shape[1], t.shape[0]), lambda i, j: t.fn(j, i), t.dtype)
+    tf = _view_fn(t)
+    return LamTensor((t.shape[1], t.shape[0]), lambda i, j: tf(j, i), t.dtype)
 
 
 def matmul(a, b):
@@ -474,10 +520,12 @@ def matmul(a, b):
     if not isinstance(k, int) or not isinstance(b.shape[0], int) or b.shape[0] != k:
         raise Unsupported("matmul with symbolic inner dimension")
 
+    af, bf = a.fn, b.fn
+
     def fn(i, j):
         acc = 0
         for r in range(k):
-            acc = ops.add(acc, ops.mul(a.fn(i, r), b.fn(r, j)))
+            acc = ops.add(acc, ops.mul(af(i, r), bf(r, j)))
         return acc
     dt = "complex" if "complex" in (a.dtype, b.dtype) else "real"
     return LamTensor((a.shape[0], b.shape[1]), fn, dt)
@@ -494,11 +542,13 @@ def conj(t):
 def flip(t, dims):
     dims = [d if d >= 0 else d + t.ndim for d in dims]
 
+    tf = t.fn
+
     def fn(*i):
         j = list(i)
         for d in dims:
             j[d] = ops.sub(ops.sub(t.shape[d], 1), j[d])
-        return t.fn(*j)
+        return tf(*j)
     return LamTensor(t.shape, fn, t.dtype)
 
 
